@@ -18,6 +18,7 @@ func init() {
 	verifRegister("VerifC19_KUser", VerifC19_KUser)
 	verifRegister("VerifC19_KShadow", VerifC19_KShadow)
 	verifRegister("VerifC19_KKeyword", VerifC19_KKeyword)
+	verifRegister("VerifC19_KRedef", VerifC19_KRedef)
 }
 
 var verifNames []string
@@ -243,8 +244,52 @@ func VerifC19_KShadow() {
 	if reaches[fi] == 1 && bindFails {
 		vAssert(lint, "calls that still reach the builtin keep being checked")
 	}
+	if fi == 3 && bindFails && !lint {
+		// KNOWN FINDING: a defun that takes over a builtin's name switches the builtin check off
+		// (correct) but the user-arity check does not take over
+		if vKnown("C19-defun-over-builtin-unchecked", true) {
+			return
+		}
+		vAssert(false, "a failing direct call to a function defined with defun (no &key) is reported, also when the name was a builtin's")
+	}
 	vCover("end")
 }
+
+// The signature a call is checked against is the one in effect WHERE THE CALL IS: a later
+// redefinition, or a function of the same name in another package, does not change it.
+func VerifC19_KRedef() {
+	tmpls := []string{
+		"(defun f (a) 1)\n(f%ARGS%)\n(defun f (a b) 2)",
+		"(in-package 'p)\n(defun g (a) 1)\n(g%ARGS%)\n(in-package 'q)\n(defun g (a b) 2)",
+		"(defun f (a) 1)\n(f%ARGS%)\n(defun other (a b) 2)", // control: nothing redefined
+	}
+	ti := vConcInt(vndChoice("tmpl", len(tmpls)))
+	k := vndInt("k")
+	vAssume(k >= 0)
+	vAssume(k <= 3)
+	k = vConcInt(k)
+	args := ""
+	for j := 0; j < k; j++ {
+		args += " 0"
+	}
+	src := strings.Replace(tmpls[ti], "%ARGS%", args, 1)
+	vObserve("src", src)
+	lint := verifArityDiags(src, true) > 0
+	env := verifNewEnv()
+	v := env.LoadString("t.lisp", src)
+	bindFails := verifBindFails(v)
+	vAssert(bindFails == (k != 1), "harness model: the call reaches the one-parameter definition")
+	if lint != bindFails && ti < 2 {
+		// KNOWN FINDING: the user-arity check looks a name up once per file (last definition, any
+		// package); only that exact behaviour is waived
+		if vKnown("C19-user-arity-last-definition-wins", lint == (k != 2)) {
+			return
+		}
+	}
+	vAssert(lint == bindFails, "a direct call to a defun'd function (no &key) is reported exactly when it fails argument binding")
+	vCover("end")
+}
+
 
 // keyword-parameter builtins called the way they are meant to be called: the required arguments,
 // then 0..all of their keyword parameters as :name value pairs (every subset, solver-chosen): the
